@@ -240,3 +240,76 @@ func HarnessC03C2() { c03famC(2) }
 func HarnessC03D2() { c03famD(2) }
 func HarnessC03A3() { c03famA(3) }
 func HarnessC03D1() { c03famD(1) }
+
+// ---- family E: maps of maps with sharing; family F: references declared after an unexported field
+
+type c03cfgE struct {
+	Outer  map[string]map[string]int8
+	Again0 map[string]int8
+	Again1 map[string]int8
+}
+
+func c03famE() {
+	inner := []map[string]int8{{"a": zzverif.Int8("i0")}, {"b": zzverif.Int8("i1")}}
+	pick := func(name string) map[string]int8 {
+		if k := c03pick(name, 2); k >= 0 {
+			return inner[k]
+		}
+		return nil
+	}
+	def := &c03cfgE{Outer: map[string]map[string]int8{"x": inner[0], "y": inner[zzverif.Choose("outer_y", 2)]}, Again0: pick("again0"), Again1: pick("again1")}
+	c03check("family E (maps of maps)", def, func(c *c03cfgE) []reflect.Value {
+		return []reflect.Value{reflect.ValueOf(c.Outer), reflect.ValueOf(c.Outer["x"]), reflect.ValueOf(c.Outer["y"]), reflect.ValueOf(c.Again0), reflect.ValueOf(c.Again1)}
+	})
+}
+
+type c03F struct {
+	Val    int64
+	P      *c03F
+	hidden int
+	Q      *c03F
+	M      map[string]*c03F
+	A      [1]*c03F
+}
+
+type c03cfgF struct {
+	R0     *c03F
+	secret int
+	R1     *c03F
+	Shared map[string]*c03F
+}
+
+func c03famF(n int) {
+	nodes := make([]*c03F, n)
+	for i := range nodes {
+		nodes[i] = &c03F{Val: zzverif.Int64("val" + strconv.Itoa(i)), hidden: i}
+	}
+	get := func(name string) *c03F {
+		if k := c03pick(name, n); k >= 0 {
+			return nodes[k]
+		}
+		return nil
+	}
+	shared := map[string]*c03F{"x": get("shared_x")}
+	for i, nd := range nodes {
+		nd.P = get("n" + strconv.Itoa(i) + "P")
+		nd.Q = get("n" + strconv.Itoa(i) + "Q")
+		if zzverif.Choose("n"+strconv.Itoa(i)+"M", 2) == 1 {
+			nd.M = shared
+		}
+		nd.A[0] = get("n" + strconv.Itoa(i) + "A0")
+	}
+	def := &c03cfgF{R0: nodes[0], secret: 42, R1: get("R1"), Shared: shared}
+	c03check("family F (references after unexported fields)", def, func(c *c03cfgF) []reflect.Value {
+		out := []reflect.Value{reflect.ValueOf(c.R0), reflect.ValueOf(c.R1), reflect.ValueOf(c.Shared), reflect.ValueOf(c.Shared["x"])}
+		for _, r := range []*c03F{c.R0, c.R1} {
+			if r != nil {
+				out = append(out, reflect.ValueOf(r.P), reflect.ValueOf(r.Q), reflect.ValueOf(r.M), reflect.ValueOf(r.A[0]))
+			}
+		}
+		return out
+	})
+}
+
+func HarnessC03E()  { c03famE() }
+func HarnessC03F2() { c03famF(2) }
